@@ -244,6 +244,15 @@ impl Dyn {
         parser.parse(input)
     }
 
+    /// One parser object for a whole history of inputs: `f` gets a closure that parses with that same object.
+    pub fn lr_session<'i, R>(&self, f: impl FnOnce(&dyn Fn(&'i str) -> rustemo::Result<LTree<'i>>) -> R) -> R {
+        self.install();
+        let lexer = self.string_lexer::<LrCtx<'i>>();
+        let parser: LRParser<'_, LrCtx<'i>, St, Pk, Tk, Ntk, DynDef, _, TreeBuilder<'i, str, Pk, Tk>, str> =
+            LRParser::new(self.def, St::default(), self.cfg.partial, self.has_layout, lexer, TreeBuilder::new());
+        f(&|input: &'i str| parser.parse(input))
+    }
+
     pub fn glr_parse<'i>(&self, input: &'i str) -> rustemo::Result<Forest<'i, str, Pk, Tk>> {
         self.glr_parse_with(input, self.string_lexer::<GlrCtx<'i>>())
     }
